@@ -817,7 +817,7 @@ def adapt_typehints(
         if serialize:
             if isinstance(val, typehint):
                 val = val.name
-            elif not isinstance(val, str):
+            elif not isinstance(val, str) or val not in typehint.__members__:
                 raise_unexpected_value(f"Expected a member of {typehint}", val)
         elif not isinstance(val, typehint):
             try:
